@@ -4,7 +4,7 @@ import ast
 from sa.cfg import cfg_of
 from sa.effects import attr_writes
 from sa.program import dotted, norm, own_nodes, const_str
-from sa.util import (ancestors, assignments_to, cfg_node_of, guards_at, stmt_text, names_in, parents)
+from sa.util import (ancestors, assignments_to, cfg_node_of, enclosing_try_bodies, guards_at, stmt_text, names_in, parents)
 from . import shared
 
 CLI_MODULES = ("cli.__main__", "cli.args", "cli.builders", "cli.emit", "cli.extractor", "cli.generator", "cli.ir", "cli.naming",
@@ -59,6 +59,69 @@ def _config_keys_read(funcs, recv_filter=None):
     return keys
 
 
+def _cli_callee(p, call):
+    fn = call.func
+    nm = fn.id if isinstance(fn, ast.Name) else (fn.attr if isinstance(fn, ast.Attribute) else None)
+    if nm is None:
+        return None
+    for m in p.modules.values() if hasattr(p, "modules") and isinstance(p.modules, dict) else []:
+        if m.name.startswith("cli") and nm in m.functions:
+            return m.functions[nm]
+    return None
+
+def parsed_exprs(p, f, depth=2):
+    """expressions (normalised text) that *f* parses on some path, with the call node"""
+    out = []
+    for x in own_nodes(f.node):
+        if not isinstance(x, ast.Call):
+            continue
+        if norm(x.func) in ("ast.parse", "compile") and x.args:
+            # a parse whose SyntaxError is swallowed (the handler hands the text back unchanged) checks nothing
+            swallowed = False
+            for t_ in enclosing_try_bodies(f, x):
+                for h in t_.handlers:
+                    if h.type is None or any(nm in norm(h.type) for nm in ("SyntaxError", "Exception", "ValueError")):
+                        reports = any(isinstance(y, ast.Raise) or
+                                      (isinstance(y, (ast.Return, ast.Assign)) and isinstance(y.value, ast.List) and y.value.elts) or
+                                      (isinstance(y, ast.Call) and isinstance(y.func, ast.Attribute) and y.func.attr in ("append", "extend"))
+                                      for st in h.body for y in ast.walk(st))
+                        if not reports:
+                            swallowed = True
+            if not swallowed:
+                out.append((x.args[0], x))
+        elif depth > 0:
+            g_ = _cli_callee(p, x)
+            if g_ is not None and g_.qualname != f.qualname:
+                inner = {norm(e) for e, _ in parsed_exprs(p, g_, depth - 1)}
+                prm = [q for q in g_.params if q not in ("self", "cls")]
+                for i, a_ in enumerate(x.args):
+                    if i < len(prm) and prm[i] in inner:
+                        out.append((a_, x))
+                for k in x.keywords:
+                    if k.arg in inner:
+                        out.append((k.value, x))
+    return out
+
+
+def runner_is_parsed(p) -> bool:
+    """The verifier parses the runner text the workflow hands to the writer (so a runner that does not parse is a refusal)."""
+    main = p.module("cli.__main__")
+    wf, vr = main.functions.get("run_generation_workflow"), main.functions.get("_verify_or_refuse")
+    if wf is None or vr is None:
+        return False
+    names = {e.id for e, _ in parsed_exprs(p, vr) if isinstance(e, ast.Name)}
+    for x in own_nodes(wf.node):
+        if isinstance(x, ast.Call) and norm(x.func).endswith("_verify_or_refuse"):
+            for k in x.keywords:
+                if k.arg in names and isinstance(k.value, ast.Name) and "runner" in k.value.id:
+                    return True
+            prm = [q for q in vr.params]
+            for i, a_ in enumerate(x.args):
+                if i < len(prm) and prm[i] in names and isinstance(a_, ast.Name) and "runner" in a_.id:
+                    return True
+    return False
+
+
 def run(ctx):
     c, p, res = ctx.c, ctx.p, ctx.r
     main = p.module("cli.__main__")
@@ -109,12 +172,28 @@ def run(ctx):
     c.ob("R2", ok, vg, "syntax-check-unconditional", "the syntax check runs even with --no-verify (before the strict test)" if ok else
          "--no-verify can skip the syntax check of the generated code", vg.node)
     # ---- R3 written value is the verified value ---------------------------------------------
+    # "verified" = handed to the verifier under a parameter the verifier parses: ast.parse / compile of the parameter itself, or the
+    # parameter passed on to a CLI function that parses the parameter it arrives in (verify_generated(.., code), a syntax helper)
+    vr_parsed = parsed_exprs(p, vr)
+    vr_parsed_names = {e.id for e, _ in vr_parsed if isinstance(e, ast.Name)}
+
+    def wf_var_of(call, callee, param):
+        """the workflow variable that *call* passes for *param* of *callee*"""
+        prm = [q for q in callee.params if q not in ("self", "cls")]
+        for k in call.keywords:
+            if k.arg == param and isinstance(k.value, ast.Name):
+                return k.value.id
+        if param in prm and prm.index(param) < len(call.args) and isinstance(call.args[prm.index(param)], ast.Name):
+            return call.args[prm.index(param)].id
+        return None
     for s in wcalls:
         verified_names = set()
         for v in vcalls:
-            for a in list(v.call.args) + [k.value for k in v.call.keywords]:
-                if isinstance(a, ast.Name):
-                    verified_names.add(a.id)
+            for q in vr_parsed_names:
+                w_ = wf_var_of(v.call, vr, q)
+                if w_:
+                    verified_names.add(w_)
+        passed_names = {a.id for v in vcalls for a in list(v.call.args) + [k.value for k in v.call.keywords] if isinstance(a, ast.Name)}
         for a in s.call.args:
             if not isinstance(a, ast.Name) or "code" not in a.id:
                 continue
@@ -123,16 +202,35 @@ def run(ctx):
             between = any(g.can_reach(v_, r_, follow_exc=False) and any(g.can_reach(r_, w_, follow_exc=False) for w_ in cfg_node_of(wf, s.call))
                           for v_ in vn for r_ in reass)
             ok = a.id in verified_names and not between
+            why = "was never passed to the verifier" if a.id not in passed_names else "is passed to the verifier, which never parses it"
             c.ob("R3", ok, wf, f"written-is-verified:{a.id}",
                  f"'{a.id}' is the value that was verified" if ok else
-                 f"'{a.id}' is handed to the writer but was never passed to the verifier (only {sorted(verified_names & {n for n in verified_names if 'code' in n})} is): "
+                 f"'{a.id}' is handed to the writer but {why} (parsed: {sorted(verified_names)}): "
                  f"a config-derived string that breaks this file (e.g. an event name containing a newline) is written with exit status 0", a)
     for x in own_nodes(wr.node):
         if isinstance(x, ast.Call) and isinstance(x.func, ast.Attribute) and x.func.attr == "write_text" and x.args:
             a = x.args[0]
             direct = isinstance(a, ast.Name) and a.id in wr.params
-            c.ob("R3", direct, wr, f"write-arg:{norm(a)}",
-                 "the written string is a parameter handed over by the verified workflow" if direct else
+            same = False
+            if not direct and isinstance(a, ast.Name):
+                # computed inside the writer as F(<writer parameters>): accepted when the verifier parses F(<its parameters>) and both
+                # parameter lists receive the same workflow variables (F is a function of its arguments: merge + polish)
+                defs = [d for d in assignments_to(wr, a.id) if isinstance(d, ast.Assign) and isinstance(d.value, ast.Call)]
+                if len(defs) == 1 and all(isinstance(z, ast.Name) and z.id in wr.params for z in defs[0].value.args) and not defs[0].value.keywords:
+                    fcall = defs[0].value
+                    for e, _site in vr_parsed:
+                        if isinstance(e, ast.Call) and norm(e.func) == norm(fcall.func) and len(e.args) == len(fcall.args) and not e.keywords and \
+                                all(isinstance(z, ast.Name) and z.id in vr.params for z in e.args):
+                            for w_call in wcalls:
+                                for v in vcalls:
+                                    lhs = [wf_var_of(w_call.call, wr, z.id) for z in fcall.args]
+                                    rhs = [wf_var_of(v.call, vr, z.id) for z in e.args]
+                                    if None not in lhs and lhs == rhs:
+                                        same = True
+            okw = direct or same
+            c.ob("R3", okw, wr, f"write-arg:{norm(a)}",
+                 ("the written string is a parameter handed over by the verified workflow" if direct else
+                  "the written string is recomputed from the verified parameters by the function whose result the verifier parsed") if okw else
                  f"'{norm(a)}' is computed inside the writer (after verification) from the code strings: the merged single-file output is "
                  f"never parsed or verified before it is written", x)
     # ---- R4 coverage: IR fields rendered; fingerprint reads behaviour-bearing attributes -------
